@@ -27,7 +27,7 @@ Requests   == DigestReqs \cup LogReqs
 \* C17, first sentence: the requests that must be refused
 Valid(r) == /\ r.index \in 0..3
             /\ (r.kind = "digest" => r.dlen = 48)
-            /\ (r.kind = "log" => r.hash = "sha384" /\ r.log = "nonempty")
+            /\ (r.kind = "log" => r.hash = "sha384" /\ r.log # "empty")          \* "nonempty", or a stated length ("len65536", ...)
 
 InitTsm(s) == CASE s = "empty"     -> <<>>
                 [] s = "unrelated" -> <<[idx |-> 2, chain |-> <<>>]>>          \* another register already has an entry
@@ -90,9 +90,16 @@ WriteIndex == /\ pc = "bind"
                     /\ writes' = Append(writes, [op |-> "index", entry |-> target])
                     /\ pc' = "extend" /\ UNCHANGED <<req, scan, target, calls, result, hist, init>>
 
+\* "digestLate": the digest write takes effect and is then reported as failed (EBUSY after the fact): the register was extended once,
+\* the call returns the error, and nothing is written again
 WriteDigest == /\ pc = "extend"
                /\ \/ Fails("digest")
-                  \/ /\ req.fault # "digest"
+                  \/ /\ req.fault = "digestLate"
+                     /\ tsm' = [tsm EXCEPT ![target].chain = Append(@, calls)]
+                     /\ writes' = Append(writes, [op |-> "digest", entry |-> target])
+                     /\ result' = "error" /\ pc' = "idle"
+                     /\ UNCHANGED <<req, scan, target, calls, hist, init>>
+                  \/ /\ req.fault \notin {"digest", "digestLate"}
                      /\ tsm' = [tsm EXCEPT ![target].chain = Append(@, calls)]     \* the digest of call number `calls`
                      /\ writes' = Append(writes, [op |-> "digest", entry |-> target])
                      /\ result' = "ok" /\ pc' = "idle"
@@ -117,6 +124,6 @@ ExactlyOneExtend == (Idle /\ calls > 0 /\ Valid(req) /\ req.fault = "none") =>
                        /\ Len(writes) \in {1, 3}
 RegistersAreChains == (Idle /\ \A k \in DOMAIN hist : hist[k].fault = "none") => \A i \in 0..3 : Register(i) = AcceptedFor(i)
 \* a call cut short by a TSM fault returns an error and extends nothing
-FaultedExtendsNothing == (Idle /\ calls > 0 /\ result = "error") => Len(SelectSeq(writes, LAMBDA x : x.op = "digest")) = 0
+FaultedExtendsNothing == (Idle /\ calls > 0 /\ result = "error") => Len(SelectSeq(writes, LAMBDA x : x.op = "digest")) = (IF req.fault = "digestLate" THEN 1 ELSE 0)
 NothingElseBound == \A k \in DOMAIN tsm : tsm[k].idx \in (0..3) \cup {Unbound}
 =================================================================================
